@@ -48,6 +48,7 @@ type HarnessResult struct {
 	Funcs         map[string]bool
 	MaxPathSteps  int
 	BudgetHit     bool
+	KnownHits     int
 }
 
 type Explorer struct {
@@ -67,15 +68,39 @@ type Explorer struct {
 	active int
 	res    *HarnessResult
 	stop   bool
+
+	knownLabels       map[string]bool
+	knownKept         map[string]int
+	unknownViolations int
 }
 
 func (e *Explorer) Run() *HarnessResult {
 	start := time.Now()
 	e.res = &HarnessResult{Name: e.spec.Name, Outcomes: map[string]int{}, Covers: map[string]bool{}, Funcs: map[string]bool{}}
 	e.cond = sync.NewCond(&e.mu)
+	e.knownKept = map[string]int{}
+	if e.knownLabels == nil {
+		e.knownLabels = map[string]bool{}
+	}
 	e.queue = [][]int{nil}
 	rng := rand.New(rand.NewSource(e.seed))
 	var wg sync.WaitGroup
+	if os.Getenv("GOSYM_PROGRESS") != "" {
+		done := make(chan struct{})
+		defer close(done)
+		go func() {
+			for {
+				select {
+				case <-done:
+					return
+				case <-time.After(10 * time.Second):
+					e.mu.Lock()
+					fmt.Fprintf(os.Stderr, "progress %s: paths=%d queue=%d active=%d outcomes=%v\n", e.spec.Name, e.res.Paths, len(e.queue), e.active, e.res.Outcomes)
+					e.mu.Unlock()
+				}
+			}
+		}()
+	}
 	for w := 0; w < e.workers; w++ {
 		wg.Add(1)
 		go func(w int) {
@@ -111,6 +136,10 @@ func (e *Explorer) Run() *HarnessResult {
 				e.mu.Lock()
 				e.active--
 				e.absorb(m, pr, rng)
+				if e.unknownViolations >= 64 && !e.spec.Twin {
+					// enough witnesses: a violation is a definitive answer, stop exploring
+					e.stop = true
+				}
 				if e.spec.MaxPaths > 0 && e.res.Paths >= e.spec.MaxPaths && len(e.queue) > 0 {
 					e.res.BudgetHit = true
 					e.res.Inconclusive = append(e.res.Inconclusive, fmt.Sprintf("path budget %d exhausted with %d prefixes pending", e.spec.MaxPaths, len(e.queue)))
@@ -194,6 +223,16 @@ func (e *Explorer) absorb(m *Machine, pr *PathResult, rng *rand.Rand) {
 		r.Inconclusive = append(r.Inconclusive, "solver answered unknown on an assertion")
 	}
 	for _, v := range pr.Violations {
+		if e.knownLabels[v.Label] {
+			// listed known finding: keep a few witnesses, do not let it cut the exploration short
+			if e.knownKept[v.Label] < 4 {
+				e.knownKept[v.Label]++
+				r.Violations = append(r.Violations, v)
+			}
+			r.KnownHits++
+			continue
+		}
+		e.unknownViolations++
 		if len(r.Violations) < 200 {
 			r.Violations = append(r.Violations, v)
 		}
